@@ -278,4 +278,4 @@ mod test {
 
 #[cfg(kani)]
 #[path = "/verif/kani/statrs.rs"]
-mod verif_kani;
+pub(crate) mod verif_kani;
